@@ -211,9 +211,17 @@ def value_inhabits(f, v, table):
 
 
 def run_c13(tier):
-    from kio.serial import _introspect, entity_reader, entity_writer
+    from kio.serial import entity_reader, entity_writer
 
+    try:
+        from kio.serial import _introspect
+
+        second_reading = all(hasattr(_introspect, n) for n in ("classify_field", "is_optional", "get_field_tag", "get_schema_field_type",
+                                                                "EntityField", "EntityTupleField"))
+    except ImportError:
+        _introspect, second_reading = None, False
     run = Run("C13", tier, "exploration")
+    run.notes["second_reading_of_descriptions"] = "kio.serial._introspect" if second_reading else "unavailable (private helpers not found), sub-check skipped"
     acc = Acc(max_samples=5)
     table = type_table()
     nfields = 0
@@ -290,7 +298,11 @@ def run_c13(tier):
                 if not default_resolvable(f):
                     bad("tagged-field-default-not-resolvable", "explicit default or implicit zero value", repr(f.annotation))
                     continue
-            # second, independent classification (kio's own) must agree with E1's
+            # second, independent classification (kio's own) must agree with E1's; kio's introspection helpers
+            # are private, so if a refactoring removed them this sub-check is skipped and said so
+            if not second_reading:
+                acc.outcome(f"{f.kafka_type or 'struct'}{'[]' if f.array else ''} (second reading unavailable)")
+                continue
             try:
                 fcl = _introspect.classify_field(df)
                 kio_view = (fcl.is_array, isinstance(fcl, (_introspect.EntityField, _introspect.EntityTupleField)),
